@@ -266,7 +266,9 @@ def pos_stream(ctx, name, games, synth, templates=1, spec_sample=None):
         spec_sample = len(cases)
     # originals are at even indices, their mirrors at odd ones; sample originals evenly
     idx = list(range(0, len(cases), 2))
-    if len(idx) > spec_sample:
+    if spec_sample <= 0:
+        idx = []
+    elif len(idx) > spec_sample:
         step = len(idx) / float(spec_sample)
         idx = [idx[int(k * step)] for k in range(spec_sample)]
     spec = run_oracle(['SPEC\t' + fens[i] for i in idx])
